@@ -68,6 +68,17 @@ def cases(tier, seed, args):
         out.append(dict(t='ll', kind='cacgmm', L=[], K=2, D=3, N=[1500, 2047, 1100, 1300][i % 4], wca=(-1,), wca_type='tuple', iterations=5,
                         saliency=False, seed=int(rng.integers(1 << 30)), opts=dict(covariance_norm='eigenvalue', affiliation_eps=0.0),
                         offset=0.0, sal_class=False, every=1))
+    # more than 4096 observations, source after source (blocks of unequal class mass)
+    for i in range(1 if q else 3):
+        out.append(dict(t='ll', kind='cwmm', L=[], K=2, D=3, N=[4296, 4500, 8200][i % 3], wca=(-1,), wca_type='tuple', iterations=10 if q else 20,
+                        saliency=False, seed=int(rng.integers(1 << 30)), opts={}, offset=0.0, sal_class=False, noise=0.3, informed=False,
+                        sorted_labels=True))
+    # embeddings of the integration model handed over as a transposed view / in Fortran order (same values)
+    for i in range(8 if q else 24):
+        out.append(dict(t='ll', kind='gcacgmm', L=[[4], [2], [3], [8]][i % 4], K=2, D=3, N=[100, 200, 60, 40][i % 4], wca=[(-1,), (-3, -1)][i % 2], wca_type='tuple',
+                        iterations=8, saliency=False, seed=int(rng.integers(1 << 30)),
+                        opts=dict(spatial_weight=1.0, spectral_weight=1.0, covariance_type=['spherical', 'full', 'diagonal'][i % 3],
+                                  affiliation_eps=0.0), offset=0.0, sal_class=False, E=3, emb_layout=['view', 'F', 'view'][i % 3], informed_pos=True))
     # badly spread data: two heavy regular clusters (integer saliency = repetitions) and a few points 1e3 deviations away
     for i in range(3 if q else 12):
         out.append(dict(t='ll', kind='gmm', L=[], K=3, D=2, N=46, wca=(-1,), wca_type='tuple', iterations=6, saliency=True,
@@ -166,6 +177,8 @@ def run_case(case):
     if kind == 'cwmm' and case.get('noise'):
         proto = ml.unit(rng.normal(size=(K, D)) + 1j * rng.normal(size=(K, D)))
         lab0 = rng.integers(0, K, size=(*L, N))
+        if case.get('sorted_labels'):
+            lab0 = np.sort(lab0, axis=-1)
         # class 0 sharply concentrated, the other classes ordinary (every second case): the concentrated class is not clipped
         sig = np.full(K, case['noise'])
         if case['seed'] % 2:
@@ -189,6 +202,22 @@ def run_case(case):
             sel = np.where((lab == k)[..., None, None], A[..., k, None, :, :], sel)
         data['y'] = np.einsum('...nde,...ne->...nd', sel, x)
     init = ml.make_init(rng, L, K, N)
+    if case.get('informed_pos') and 'emb' in data:
+        # both streams follow one labelling; the start is a blurred (strictly positive) version of it
+        labp = rng.integers(0, K, size=(*L, N))
+        cent = rng.normal(size=(K, data['emb'].shape[-1])) * 2
+        data['emb'] = cent[labp] + 0.3 * rng.normal(size=data['emb'].shape)
+        proto = rng.normal(size=(*L, K, D)) + 1j * rng.normal(size=(*L, K, D))
+        data['y'] = np.take_along_axis(proto, labp[..., None], axis=-2) + 0.3 * (rng.normal(size=(*L, N, D)) + 1j * rng.normal(size=(*L, N, D)))
+        init = 0.9 * np.moveaxis(np.eye(K)[labp], -1, -2) + 0.1 / K
+    if case.get('emb_layout') and 'emb' in data:
+        e0 = np.ascontiguousarray(data['emb'])
+        if case['emb_layout'] == 'F':
+            data['emb'] = np.asfortranarray(e0)
+        else:
+            # a (T, F, E) array (e.g. a network output) handed over as its (F, T, E) transposed view
+            data['emb'] = np.ascontiguousarray(np.swapaxes(e0, 0, 1)).swapaxes(0, 1)
+        assert np.array_equal(data['emb'], e0) and not data['emb'].flags.c_contiguous
     if case.get('informed') and lab0 is not None:
         init = 0.96 * np.moveaxis(np.eye(K)[lab0], -1, -2) + 0.04 / K
         init = init / init.sum(-2, keepdims=True)
